@@ -31,10 +31,10 @@ def run(ctx):
         fn = rng.choice(ALL_FAMS)
         ml, mi = rng.choice(SIZES)
         u = rng.choice([6, 14, 30, 60])
-        calls = [c for c in gen_history(rng, kind, u, rng.choice([8, 20, 40, 70])) ]
+        calls = [c for c in gen_history(rng, kind, u, rng.choice([8, 20, 40, 70]), selfops=True)]
         mode = rng.choice({"O": ["none-int", "str", "int"]}.get(fn[0], [None, "extreme"] if fn != "fs" else [None]))
         if mode == "none-int":
-            calls = gen_history(rng, kind, u, len(calls), avoid0=True)
+            calls = gen_history(rng, kind, u, len(calls), avoid0=True, selfops=True)
         use_subclass = rng.random() < 0.25
         ctx.progress({"family": fn, "kind": kind, "mode": mode, "sizes": [ml, mi], "calls": calls, "subclass": use_subclass})
         for impl in ("C", "Py"):
@@ -57,6 +57,7 @@ def run(ctx):
                     if (i == 0 and rng.random() < 0.5) or rng.random() < 0.08:
                         rej = rejected_write(rng, env, kind)
                         if rej is not None:
+                            snap = list(t) if kind == "TreeSet" else list(t.items())
                             r = call_raw(t, kind, rej[0], rej[1], rej[2])
                             if r[0] == "ok":
                                 skipped = True   # not rejected (C13's / C09's business): the model no longer applies
@@ -64,6 +65,8 @@ def run(ctx):
                             nrejected += 1
                             c = ("rejected-" + rej[0], repr(rej[1])[:20], repr(rej[2])[:20])
                             bad = verify(env, t, ml, mi, use_subclass)
+                            if bad is None and (list(t) if kind == "TreeSet" else list(t.items())) != snap:
+                                bad = ("contents-changed", "the rejected write changed the contents")
                             if bad:
                                 ctx.oracle_failure("%s:%s:%s:after-rejected-write" % (impl, kind, bad[0]),
                                                    "%s%s/%s sizes=(%d,%d) after the REJECTED write %r (before call #%d, %d keys stored): %s" % (fn, kind, impl, ml, mi, c, i, len(t), bad[1]),
